@@ -85,9 +85,10 @@ func (h *c12H) directed() []c12Script {
 		{}, {}, {}, {}, {},
 	}})
 
-	// (4) a validator that is removed while a round is open keeps its nonce row and is still admitted afterwards.
+	// (4) regression scenario for the repaired stale-row defect: a validator that is removed while a round is open must
+	// lose its nonce row with the forced seal and must not be admitted afterwards.
 	eq4 := []c12Upd{{0, 100}, {1, 100}, {2, 100}, {3, 100}}
-	out = append(out, c12Script{tags: []string{"kf-C13-stale-nonce-row"}, params: &p, h0: 19, nb: 8, blocks: []c12ScriptBlock{
+	out = append(out, c12Script{tags: []string{"dir-C13-removed-validator-keeps-no-row"}, params: &p, h0: 19, nb: 8, blocks: []c12ScriptBlock{
 		{updates: eq4}, {},
 		{updates: []c12Upd{{3, 0}}}, // block 21: validator 3 leaves while the round with base block 20 is open
 		{txs: func(st c12State, now time.Time) []c12Tx {
@@ -102,28 +103,60 @@ func (h *c12H) directed() []c12Script {
 		}},
 		{}, {}, {},
 	}})
-	// (5) the token-registration path stores a caller-chosen interval without Params.Validate: interval 2 < 2*MaxNonce.
-	// The model runs with the params as they are AFTER the registration (the new feeder starts 10 blocks later, so it
-	// has no effect before); a round of the new feeder is re-opened every 2 blocks and never sealed.
+	// (4b) exactly 2/3 of the NEW validator set plus a validator that was removed before the round opened: the removed
+	// validator gets no nonce row, its report is not admitted, and {A, B} = 200 of 300 is not a super-majority.
+	out = append(out, c12Script{tags: []string{"dir-C12-removed-validator-does-not-count"}, params: &p, h0: 19, nb: 17, blocks: []c12ScriptBlock{
+		{updates: eq4}, {}, {}, {}, {}, {}, // blocks 19..24: the round with base block 20 expires at 23
+		{updates: []c12Upd{{3, 0}}},       // block 25: validator 3 leaves, no round is open
+		{}, {}, {}, {}, {},                // blocks 26..30: the round with base block 30 opens
+		{txs: func(st c12State, now time.Time) []c12Tx {
+			d := c12DMsg(p, st, 3, 1, 0, "1", 100, now)
+			d.Base = 30
+			return []c12Tx{
+				c12One(c12DMsg(p, st, 0, 1, 0, "1", 100, now), "valid"),
+				c12One(c12DMsg(p, st, 1, 1, 0, "1", 100, now), "valid"),
+				c12One(d, "former-validator"),
+			}
+		}},
+		{}, {}, {}, {},
+	}})
+
+	// (5) regression scenario for the repaired registration path: RegisterNewTokenAndSetTokenFeeder with interval 2
+	// (< 2*MaxNonce) must be rejected by Params.Validate and leave the params alone. The case is recorded with the
+	// params the chain really has afterwards: if the registration were accepted again, the new feeder is part of them
+	// and the round-numbering statement fails on it (a round re-opened every 2 blocks is never sealed).
 	p5 := c12Params{MaxNonce: 3, ThrA: 2, ThrB: 3, MaxDetID: 5, MaxSize: 100, TokenDec: []int32{0, 8, 6},
 		Feeders: []c12Feeder{{ID: 1, Token: 1, Start: 10, Interval: 10, StartRound: 1}, {ID: 2, Token: 2, Start: 31, Interval: 2, StartRound: 1}}}
 	p5pre := p5
 	p5pre.Feeders = p5.Feeders[:1]
 	p5pre.TokenDec = []int32{0, 8}
-	out = append(out, c12Script{tags: []string{"kf-C12-unvalidated-interval"}, params: &p5, setupParams: &p5pre, h0: 19, nb: 22, blocks: []c12ScriptBlock{
-		{updates: eq3}, {},
-		{pre: func(ctx sdk.Context) { // block 21: new feeder starts at 21 + 10
-			var oi oracletypes.OracleInfo
-			oi.Chain.Name, oi.Chain.Desc = "Ethereum", "-"
-			oi.Token.Name, oi.Token.Decimal, oi.Token.Contract = "NEWT", "6", "0x"
-			oi.Feeder.Interval = "2"
-			oi.AssetID = "0x00000000000000000000000000000000000000aa_0x65"
-			oi.Token.AssetID = oi.AssetID
-			if err := h.env.App.OracleKeeper.RegisterNewTokenAndSetTokenFeeder(ctx, &oi); err != nil {
-				panic(err)
+	registered := false
+	out = append(out, c12Script{tags: []string{"dir-C12-registration-validates-interval"}, params: &p5pre, h0: 19, nb: 22,
+		paramsAfter: func() c12Params {
+			if registered {
+				return p5
 			}
-		}},
-		{}, {}, {}, {}, {}, {}, {}, {}, {}, {}, {}, {}, {}, {}, {}, {}, {}, {}, {},
-	}})
+			return p5pre
+		},
+		blocks: []c12ScriptBlock{
+			{updates: eq3}, {},
+			{pre: func(ctx sdk.Context) { // block 21: a new feeder would start at 21 + 10
+				var oi oracletypes.OracleInfo
+				oi.Chain.Name, oi.Chain.Desc = "Ethereum", "-"
+				oi.Token.Name, oi.Token.Decimal, oi.Token.Contract = "NEWT", "6", "0x"
+				oi.Feeder.Interval = "2"
+				oi.AssetID = "0x00000000000000000000000000000000000000aa_0x65"
+				oi.Token.AssetID = oi.AssetID
+				cctx, write := ctx.CacheContext()
+				if err := h.env.App.OracleKeeper.RegisterNewTokenAndSetTokenFeeder(cctx, &oi); err == nil {
+					write()
+					registered = true
+					h.w.Count("directed.registration=accepted")
+				} else {
+					h.w.Count("directed.registration=rejected")
+				}
+			}},
+			{}, {}, {}, {}, {}, {}, {}, {}, {}, {}, {}, {}, {}, {}, {}, {}, {}, {}, {},
+		}})
 	return out
 }
